@@ -141,6 +141,25 @@ func evaluate(col *vc.Collector, c *Config, res result) {
 	wit := func() any {
 		return map[string]any{"config": c, "choices": res.Choices, "S": res.S, "C": res.C, "user_state": res.UserState, "log": simkit.Compact(res.Evs, 200)}
 	}
+	if c.E2E {
+		// C07 end to end only: the other monitors compare payloads byte by byte
+		for _, e := range res.Evs {
+			if e.Kind == "panic" {
+				col.Violation("C08", "panic:"+strings.SplitN(e.S, "\n", 2)[0], e.S, c.ID, wit())
+			}
+		}
+		if res.BubbleErr != "" {
+			col.Inconclusive("C07", "e2e bubble: "+res.BubbleErr)
+			return
+		}
+		if !res.S.Complete || !res.C.Complete {
+			col.Inconclusive("C07", "e2e: handshake of the carrier connection did not complete")
+			return
+		}
+		col.Count("C07", "e2e:scenarios", 1)
+		monitorC07E2E(col, c, res, wit)
+		return
+	}
 	for _, p := range props {
 		col.Eval(p, 1)
 	}
@@ -437,13 +456,23 @@ func TestEngine(t *testing.T) {
 		return
 	}
 	n := run_.N(3000, 60000)
+	onlyE2E := run_.Prop == "C07"
+	if onlyE2E {
+		n = run_.N(1500, 30000)
+	}
 	for i := 0; i < n; i++ {
 		if !run_.Mine(i) || i < start {
 			continue
 		}
 		r := vc.NewRand(run_.Seed, engine, uint64(i))
-		c := genConfig(r, i)
-		c.ID = fmt.Sprintf("%s/%d/%s", engine, i, c.Desc())
+		var c *Config
+		if onlyE2E {
+			c = genE2E(vc.NewRand(run_.Seed, engine+"-e2e", uint64(i)))
+			c.ID = fmt.Sprintf("%s/e2e/%d", engine, i)
+		} else {
+			c = genConfig(r, i)
+			c.ID = fmt.Sprintf("%s/%d/%s", engine, i, c.Desc())
+		}
 		vc.Scn(c.ID)
 		wd.Begin(c.ID, func() any { return c })
 		res := run(t, c, wd)
